@@ -5,6 +5,7 @@ import (
 	"encoding/binary"
 	"encoding/gob"
 	"fmt"
+	"math/big"
 
 	"github.com/db47h/decimal"
 
@@ -169,10 +170,42 @@ func c17IntoReceiver(c *hx.Ctx, r *hx.RNG) {
 	q := int64(r.Range(1, 140))
 	mode := r.Mode()
 	z := newRecv(q, mode)
-	if r.Bool() {
+	held := ""
+	switch r.Intn(4) {
+	case 0:
 		z.SetInt64(31337)
+		held = " holding 31337"
+	case 1:
+		if pre.V.Form == oracle.Finite {
+			// the receiver holds a relative of what arrives: the same digits followed by more (whole words more, or a few
+			// digits), the same value, or its leading digits only - a decoder that looks at what the receiver holds must
+			// not mistake one for the other
+			rel := oracle.Val{Form: oracle.Finite, Neg: pre.V.Neg != r.Chance(20), Coef: new(big.Int).Set(pre.V.Coef), Exp: pre.V.Exp}
+			switch r.Intn(4) {
+			case 0:
+				k := int64(19*r.Range(1, 3)) + (19-oracle.Digits(rel.Coef)%19)%19 // (x's words, then whole words more)
+				rel.Coef.Mul(rel.Coef, oracle.Pow10(k)).Add(rel.Coef, hx.CoefOf(r.Digits(19*r.Range(1, int(k/19)))))
+				rel.Exp -= k
+			case 1:
+				k := int64(r.Range(1, 18))
+				rel.Coef.Mul(rel.Coef, oracle.Pow10(k)).Add(rel.Coef, big.NewInt(int64(r.Range(1, 9))))
+				rel.Exp -= k
+			case 2:
+				if d := oracle.Digits(rel.Coef); d > 19 {
+					k := int64(r.Range(1, int(d)-1))
+					rel.Coef.Quo(rel.Coef, oracle.Pow10(k))
+					rel.Exp += k
+				}
+			}
+			rel = inRange(rel)
+			z = hx.Mk(rel, uint(maxI(int(q), int(oracle.Digits(rel.Coef)))), mode)
+			if z.Prec() != uint(q) { // keep the longer mantissa: SetPrec upwards does not touch it
+				q = int64(z.Prec())
+			}
+			held = " holding " + rel.String()
+		}
 	}
-	what := fmt.Sprintf("GobDecode of %s into a receiver with prec=%d mode=%s", pre, q, oracle.ModeNames[mode])
+	what := fmt.Sprintf("GobDecode of %s into a receiver with prec=%d mode=%s%s", pre, q, oracle.ModeNames[mode], held)
 	c.Note(what)
 	pi := hx.Try(func() {
 		b, _ := x.GobEncode()
